@@ -100,7 +100,7 @@ def inproc(ctx):
         cases.append({"cfg": cfg, "forest": fo, "evs": evs, "res": r1, "complete": True})
         cases.append({"cfg": cfg2, "forest": fo, "evs": evs, "res": r2, "complete": True})
         ctx.case(key=("pair", repr(cfg), tuple(evs)), tags=["method-pair"], size=len(evs))
-    # stage-1 specification cases: only -F / -N / -D, every call takes >= 1 tick, default --max-stack
+    # stage-1 specification cases: only -F / -N / -D / -t (durations around the threshold, zero durations too)
     selcases = []
     for i in range(ctx.n(50, 600)):
         cfg = {"shape": rng.choice(["pg", "cyg"]), "trig": {}, "pattern": rng.choice(["simple", "regex", "glob"])}
@@ -108,7 +108,9 @@ def inproc(ctx):
             cfg["trig"][k] = {"filter": rng.random() < 0.6}
         if rng.random() < 0.6:
             cfg["depth"] = rng.choice([1, 2, 3, 4])
-        fo = F.assign_times(rng, F.gen_shape(rng, 6, rng.choice([5, 12, 25]), 7), durs=(1, 2, 5, 10))
+        if rng.random() < 0.5:
+            cfg["threshold"] = rng.choice([1, 5, 10])
+        fo = F.assign_times(rng, F.gen_shape(rng, 6, rng.choice([5, 12, 25]), 7), durs=(0, 1, 2, 4, 5, 6, 9, 10, 11))
         evs = F.flatten(fo)
         res = mcgen.run_case(h, cfg, evs)
         selcases.append({"cfg": cfg, "forest": fo, "evs": evs, "res": res})
@@ -129,10 +131,10 @@ def inproc(ctx):
     pair_terms = ["(%s, %s, %s, %s)" % (F.coq_cfg(p["cfg"], mch.SIZES), F.coq_events(p["evs"]),
                                         mcgen.coq_recs(p["pg"]["recs"]), mcgen.coq_recs(p["cyg"]["recs"])) for p in pairs]
     defs += "Definition pairs : list (cfg * list ev * list seen5 * list seen5) := [\n%s\n].\n" % ";\n".join(pair_terms)
-    sel_terms = ["ok_sel [%s] %s %d %s %s" % (
+    sel_terms = ["ok_sel [%s] %s %d %d %s %s" % (
         "; ".join("(%d, Some %s)" % (256 * k, coq.coq_bool(t["filter"])) for k, t in sorted(c["cfg"]["trig"].items())),
         coq.coq_bool(any(t["filter"] for t in c["cfg"]["trig"].values())),
-        c["cfg"].get("depth") if c["cfg"].get("depth") is not None else 1024,
+        c["cfg"].get("depth") if c["cfg"].get("depth") is not None else 1024, c["cfg"].get("threshold") or 0,
         F.coq_forest(c["forest"]), mcgen.coq_recs(c["res"]["recs"])) for c in selcases]
     defs += "Definition selchk : list bool := [\n%s\n].\n" % ";\n".join(sel_terms)
     res = coq.run_cases(ctx, "c05_cases", mcgen.PRE, defs, [
@@ -295,7 +297,7 @@ def meta(ctx):
 
 def run(ctx):
     meta(ctx)
-    coq.prove(ctx, "C05")
+    coq.prove(ctx, "C05", extra_files=["Mcount/Check"])
     objdir = build.get_build("plain", ctx.log)
     inproc(ctx)
     known_leak(ctx)
@@ -304,7 +306,7 @@ def run(ctx):
 
 def replay(ctx, obj):
     meta(ctx)
-    coq.prove(ctx, "C05")
+    coq.prove(ctx, "C05", extra_files=["Mcount/Check"])
     if "events" not in obj or "cfg" not in obj:
         return run(ctx)
     h = mch.Harness(ctx)
